@@ -44,12 +44,19 @@ OUT_CODE = {"ok": 0, "Conflict": 1, "NotFound": 2, "FileNotFoundError": 2, "Valu
 PLAIN_RUNS = ["r1", "r2", "u/v", "calib_1", "R1"]
 HOSTILE_RUNS = ["a b", "x/./y", "a/..", "..x", "a#b", "a_b", "a%b", "a%zz", "%2e%2e/sentinel", "%2E%2E/sentinel", "a%41b", "aAb",
                 "a%4ab", "aJb", "/abs", "x//y", "../outside", "..", "a/../../sentinel", "%2E%2E/%2E%2E/q", "run.ext", "a%2Fb",
-                "a%2fb", "a/b", "A_B#c", "a%5fb", "%2e", "%2E/z", "a%2E%2E", "sp ace/..", "a%", "%41", "..%2F..%2Fq"]
+                "a%2fb", "a/b", "A_B#c", "a%5fb", "%2e", "%2E/z", "a%2E%2E", "sp ace/..", "a%", "%41", "..%2F..%2Fq",
+                "%25252E%25252E/sentinel", "a%252541b", "a%2541b", "x%2ey"]
 PLAIN_INST = ["Cam", "HSC"]
 HOSTILE_INST = ["Cam A", "Cam/A", "C#m", "C%41m", "..", "C.m", "%2E%2E", "Cam_A", "c%2fd", "C%6dm"]
 PLAIN_DET = ["det0", "det1", "S00"]
 HOSTILE_DET = ["S 0", "R/1", "a#b", "%2E", "d.1", "..", "d%61"]
 ESC = re.compile(r"%[0-9A-Fa-f]{2}")
+
+
+def nested_escape(names) -> bool:
+    """a name that is still changed by a THIRD percent-decoding (e.g. '%25252E'): df0ecd0 checks the location that is written,
+    but the record text read back later is decoded once more"""
+    return any(unquote(unquote(unquote(x))) != unquote(unquote(x)) for x in names if x)
 
 
 def ndotdot(s: str) -> int:
@@ -124,7 +131,7 @@ def gen_history(r, nops, hostile, mixed=False):
         dets = pick(PLAIN_DET, HOSTILE_DET, 2)
         insts.append({"name": name, "detectors": [{"id": i, "full_name": d} for i, d in enumerate(dets)]})
     files = [{"rel": "sentinel/s1.yaml", "content": "{s: 1}\n"}, {"rel": "sentinel/dtD/dtD_Cam_det0_..yaml", "content": "{s: 2}\n"},
-             {"rel": "sentinel/deep/keep.txt", "content": "keep\n"}]
+             {"rel": "sentinel/deep/keep.txt", "content": "keep\n"}, {"rel": "sentinel/dtD/dtD_Cam_det0_.._sentinel.yaml", "content": "{s: 3}\n"}]
     nstage = r.randint(3, 6)
     for i in range(nstage):
         files.append({"rel": f"stage/f{i}.yaml", "content": f"{{v: {100 + i}}}\n"})
@@ -390,7 +397,8 @@ def model_ops(h, res, cid):
         kind = op["op"]
         if kind == "put":
             changed = [k for k, v in after["files"].items() if before["files"].get(k) != v]
-            c = cid(after["files"][changed[0]]) if (after["out"] == "ok" and len(changed) == 1) else 0
+            # the one file whose content is new (a put that fails after the formatter wrote may leave it behind)
+            c = cid(after["files"][changed[0]]) if len(changed) == 1 else 0
             out.append(f"Put {cn(op['k'])} (gen_format GEN_DEFAULT {cfields(op)}) \".yaml\" {cn(c)}")
         elif kind == "ingest":
             ks = clist([cn(k) for k in op["ks"]])
@@ -463,8 +471,16 @@ def oracle(h, res):
     def raw(d):
         return (d["dt"], d["run"], d["inst"], d.get("detname", ""))
 
+    def full_unquote(x):
+        for _ in range(6):
+            y = unquote(x)
+            if y == x:
+                break
+            x = y
+        return x
+
     def dec(d):
-        return tuple(unquote(unquote(x)) for x in raw(d))
+        return tuple(full_unquote(x) for x in raw(d))
     aliased = {k for k, d in fields.items() if any(k2 != k and raw(d2) != raw(d) and dec(d2) == dec(d) for k2, d2 in fields.items())}
     for n, op in enumerate(h["ops"]):
         b, a = steps[n], steps[n + 1]
@@ -486,6 +502,8 @@ def oracle(h, res):
             change = "created" if key not in b["files"] else ("removed" if key not in a["files"] else "overwritten")
             own = names_of(h, op)
             cause = "pct-escape" if (any(ESC.search(x) for x in own) if own else hist_pct) else "plain"
+            if cause == "pct-escape" and nested_escape(own if own else all_names):
+                cause = "pct-escape-x3"
             fails.append((f"outside-root:{tag}{refused}:{change}:{cause}", n,
                           f"step {n} ({tag}, outcome {a['out']}): file {key} outside the datastore root was {change}"))
         # (2) a dataset that is still stored and was readable still has its artifact
@@ -550,7 +568,7 @@ XCHECK_MAX = 10
 
 
 def correspond(ctx, name, pairs, expect=None):
-    cases, meta, xcheck = [], [], []
+    cases, meta, xcheck, xg_cases = [], [], [], []
     for hi, (h, res) in enumerate(pairs):
         ctx.count(len(h["ops"]))
         for op in h["ops"]:
@@ -569,11 +587,6 @@ def correspond(ctx, name, pairs, expect=None):
         cut = len(h["ops"])
         for sig, n, _ in fails:
             if sig.startswith("outside-root:put"):
-                cut = min(cut, n)
-        for n, op in enumerate(h["ops"]):
-            # put through a name with a LOWER-case escape of "." : the formatter re-derives the file name from the decoded
-            # text and writes somewhere else than the location the datastore then sizes / rolls back (not modelled)
-            if op["op"] == "put" and any("%2e" in x for x in names_of(h, op)):
                 cut = min(cut, n)
         cid = Cids()
         init = cfiles(res["steps"][0]["files"], cid)
@@ -596,6 +609,11 @@ def correspond(ctx, name, pairs, expect=None):
             ctx.hist("compared", "truncated-at-outside-put")
         cases.append(f"({init}, {clist(items)})")
         meta.append((hi, len(items)))
+        failed_at = {n for _, n, _ in fails}
+        flagged = ["(" + m + ", " + ("true" if n in failed_at else "false") + ")" for n, m in enumerate(gops)]
+        xg_cases.append(f"({init}, {clist(flagged)})")
+        for n in failed_at:
+            ctx.hist("guard_crosscheck", "failure-at-compared-step" if n < len(gops) else "failure-beyond-comparison")
         # cross-check theorem <-> oracle: an oracle failure at a compared step must coincide with a violated guard of the
         # theorems in the model's state before that step (otherwise theorem + correspondence would contradict the oracle)
         if fails and len(xcheck) < XCHECK_MAX:
@@ -607,11 +625,23 @@ def correspond(ctx, name, pairs, expect=None):
     bad = ctx.coq_cases(name, HDR, cases, "chk_hist", shard=25, timeout=900)
     if bad is None:
         return
+    # every history: an oracle failure at a compared step must meet a violated guard in the model (chk_xguard, vm_compute)
+    badset = {meta[i][0] for i in bad}
+    xbad = ctx.coq_cases(f"{name}_xguard", HDR, xg_cases, "chk_xguard", shard=40, timeout=900)
+    for i in (xbad or []):
+        hi = meta[i][0]
+        if hi in badset:
+            continue                   # the model does not follow this history anyway (reported below)
+        ctx.hist("guard_crosscheck", "UNEXPLAINED")
+        fl = sorted({n for _, n, _ in oracle(*pairs[hi])})
+        ctx.tie_broken("correspondence", f"{name}-guards",
+                       f"oracle failure at step(s) {fl} of a history although every guard of the theorems holds in the model there: "
+                       f"{json.dumps(pairs[hi][0]['ops'])[:600]}")
     for hi, want, expr in xcheck:
-        if hi in {meta[i][0] for i in bad}:
+        if hi in badset:
             continue
         rc, out = ctx.coq_eval(f"{name}_guards{hi}", HDR, expr)
-        tuples = re.findall(r"\((true|false),\s*(true|false),\s*(true|false),\s*(true|false)\)", out)
+        tuples = re.findall(r"\((true|false),\s*(true|false),\s*(true|false),\s*(true|false),\s*(true|false)\)", out)
         if rc != 0 or not tuples:
             ctx.tie_broken("correspondence", f"{name}-guards", f"could not evaluate the guards: {out[-300:]}")
             continue
@@ -700,10 +730,11 @@ def load_corpus():
 
 
 def run(ctx: Ctx):
-    if os.environ.get("C09_LOAD_FRAGMENT"):
-        # development knob only (the registered command does not set it): read this property's fragment before the
-        # maintainer has assembled known_findings.json
-        frag = VERIF / "known_findings.d" / "C09.json"
+    # known_findings.json is assembled mechanically (tools/assemble.py) from the fragments known_findings.d/*.json; entries of
+    # this property's own fragment that the assembled file does not have yet are read directly, so that a finding recorded
+    # by the last builder is already reported as KNOWN-FINDING (the fragment is the source, the assembled file the copy)
+    frag = VERIF / "known_findings.d" / "C09.json"
+    if frag.exists():
         have = {k["id"] for k in ctx.known}
         ctx.known += [k for k in json.loads(frag.read_text()) if k["id"] not in have and k["property"] == "C09"]
     ctx.assumptions += [
